@@ -381,7 +381,8 @@ class SymHandle:
     def __call__(self, *args, **kw):
         if self.kernel.dropped:
             raise irparse.IRUnsupported("kernel %s was dropped: %s" % (self.kernel.name, self.kernel.dropped[:160]))
-        key = tuple(a.uid for a in args) + tuple(sorted((k, v) for k, v in kw.items() if not callable(v)))
+        key = tuple(a.uid for a in args) + tuple(sorted((k, tuple(sorted(v.items())) if isinstance(v, dict) else v)
+                                                        for k, v in kw.items() if not callable(v)))
         if key in self.cache:
             return self.cache[key]
         o = dict(self.opts)
